@@ -164,7 +164,18 @@ def build_model(cluster, timeout=600):
     """Extract <cluster>/Extract.v and compile it with the generic driver."""
     os.makedirs(OCAML_GEN, exist_ok=True)
     name = cluster.lower()
-    rc, out = sh(['make', '-j16', '%s/Model.vo' % cluster], timeout, cwd=COQ)
+    # the .vo files Extract.v requires (From FC Require Import A.B A.C.) must exist; Model.v always
+    targets = ['%s/Model.vo' % cluster]
+    try:
+        ext = open(os.path.join(COQ, cluster, 'Extract.v')).read()
+        for m in re.finditer(r'From\s+FC\s+Require\s+(?:Import|Export)\s+((?:[A-Za-z_]\w*(?:\.[A-Za-z_]\w*)*\s*)+)\.(?:\s|$)', ext):
+            for mod in m.group(1).split():
+                t = mod.replace('.', '/') + '.vo'
+                if t not in targets and os.path.exists(os.path.join(COQ, t[:-1])):
+                    targets.append(t)
+    except OSError:
+        pass
+    rc, out = sh(['make', '-j16'] + targets, timeout, cwd=COQ)
     if rc != 0:
         return rc, out
     rc, out2 = sh(['coqc', '-Q', COQ, 'FC', os.path.join(COQ, cluster, 'Extract.v')], timeout, cwd=OCAML_GEN)
